@@ -243,6 +243,11 @@ pub trait UniIngest: Uni {
     /// None: the type has no Extend impl
     fn extend_vals(&mut self, xs: &[f64]) -> bool;
     fn extend_refs(&mut self, xs: &[f64]) -> bool;
+    /// the same four paths fed from an iterator that reports no useful size_hint
+    fn collect_vals_opaque(xs: &[f64]) -> Self;
+    fn collect_refs_opaque(xs: &[f64]) -> Self;
+    fn extend_vals_opaque(&mut self, xs: &[f64]) -> bool;
+    fn extend_refs_opaque(&mut self, xs: &[f64]) -> bool;
 }
 
 macro_rules! impl_ingest {
@@ -262,6 +267,20 @@ macro_rules! impl_ingest {
                 self.extend(xs.iter());
                 true
             }
+            fn collect_vals_opaque(xs: &[f64]) -> Self {
+                xs.iter().copied().filter(|_| true).collect()
+            }
+            fn collect_refs_opaque(xs: &[f64]) -> Self {
+                xs.iter().filter(|_| true).collect()
+            }
+            fn extend_vals_opaque(&mut self, xs: &[f64]) -> bool {
+                self.extend(xs.iter().copied().filter(|_| true));
+                true
+            }
+            fn extend_refs_opaque(&mut self, xs: &[f64]) -> bool {
+                self.extend(xs.iter().filter(|_| true));
+                true
+            }
         }
     };
     ($t:ty, noextend) => {
@@ -276,6 +295,18 @@ macro_rules! impl_ingest {
                 false
             }
             fn extend_refs(&mut self, _xs: &[f64]) -> bool {
+                false
+            }
+            fn collect_vals_opaque(xs: &[f64]) -> Self {
+                xs.iter().copied().filter(|_| true).collect()
+            }
+            fn collect_refs_opaque(xs: &[f64]) -> Self {
+                xs.iter().filter(|_| true).collect()
+            }
+            fn extend_vals_opaque(&mut self, _xs: &[f64]) -> bool {
+                false
+            }
+            fn extend_refs_opaque(&mut self, _xs: &[f64]) -> bool {
                 false
             }
         }
@@ -687,6 +718,8 @@ pub trait Hist: Clone + Debug + Send + Sync + 'static {
     fn reset_(&mut self);
     fn iter_(&self) -> Vec<((f64, f64), u64)>;
     fn into_iter_(&self) -> Vec<((f64, f64), u64)>;
+    /// size_hint() of a fresh iter() and of one advanced past its last item
+    fn iter_size_hints_(&self) -> [(usize, Option<usize>); 2];
     fn widths_(&self) -> Vec<f64>;
     fn centers_(&self) -> Vec<f64>;
     fn normalized_(&self) -> Vec<f64>;
@@ -734,6 +767,12 @@ macro_rules! impl_hist {
             }
             fn iter_(&self) -> Vec<((f64, f64), u64)> {
                 self.iter().collect()
+            }
+            fn iter_size_hints_(&self) -> [(usize, Option<usize>); 2] {
+                let fresh = self.iter().size_hint();
+                let mut it = self.iter();
+                while it.next().is_some() {}
+                [fresh, it.size_hint()]
             }
             fn into_iter_(&self) -> Vec<((f64, f64), u64)> {
                 self.into_iter().collect()
@@ -827,6 +866,12 @@ mod const_hist {
                 }
                 fn iter_(&self) -> Vec<((f64, f64), u64)> {
                     self.iter().collect()
+                }
+                fn iter_size_hints_(&self) -> [(usize, Option<usize>); 2] {
+                    let fresh = self.iter().size_hint();
+                    let mut it = self.iter();
+                    while it.next().is_some() {}
+                    [fresh, it.size_hint()]
                 }
                 fn into_iter_(&self) -> Vec<((f64, f64), u64)> {
                     self.into_iter().collect()
